@@ -13,6 +13,11 @@
       | called <peer key> <wd 0|1> <payload bytes> | called-addr <wd 0|1> | rejected <stage>
         each optionally followed by ` touched=<key>`: the stored Peer whose address book the wrapper updated
    pack <prefix> <msgid> <pub> <body> <signature>   -> <datagram>     (Gen.ezrPack with a signer that returns <signature>)
+   slice <data> <lo|-> <hi|->                       -> <data[lo:hi]>                 (pySlice)
+   varlen <strict 0|1> <data> <offset>              -> <field> <end offset> | err   (unpackVarlenH)
+   hist-reset                                       -> ok
+   hist <overlay> <data> <parse> <verify> <decode>  -> verified <sorted keys>   (stateful: Node.recv on the driver's Node, all
+                                                       overlays share its key index; adds = introduction handlers + raw)
 -/
 import Ipv8.Base.Proto
 import Ipv8.C01.Gen
@@ -84,7 +89,29 @@ def constSigner (pub sig : Bytes) : Signer :=
   { parse := fun b => some b, sigLen := fun _ => sig.length, verify := fun _ _ _ => true,
     SK := Unit, pub := fun _ => pub, sign := fun _ _ => sig }
 
-def step (_ : Unit) (toks : List String) : Unit × String :=
+/-- which handlers hand their Peer to `add_verified_peer`: the introduction request / response handlers of every
+    overlay (old and new style) and the raw discovery handler — the `adds` parameter of `Node.recv` for the shipped code -/
+def addsPeer (h : Handler) : Bool := h.msgId == 245 || h.msgId == 246 || h.msgId == 233 || h.msgId == 234
+
+def showKeys (n : Node) : String :=
+  let ks := (n.verified.map Proto.toHex).toArray.qsort (· < ·)
+  "verified " ++ " ".intercalate ks.toList
+
+def step (st : Node) (toks : List String) : Node × String :=
+  match toks with
+  | ["hist-reset"] => ({}, "ok")
+  | ["hist", ov, d, p, v, dec] =>
+    -- one step of `Node.recv` (the function `history_sound` is about) on the node state kept by this driver
+    let r : Option Node := do
+      let d ← Proto.ofHex? d
+      let p ← parseAnswer p
+      let o ← findOverlay Gen.overlays ov
+      let E := mkEnv d p (v == "1") (bitAt dec 0) (bitAt dec 1) none none
+      pure (Node.recv Gen.progs (fun _ => E) addsPeer st o d)
+    match r with
+    | some st' => (st', showKeys st')
+    | none => (st, "bad-op")
+  | _ =>
   let r : Option String :=
     match toks with
     | ["keyfield", d] => do
@@ -104,6 +131,19 @@ def step (_ : Unit) (toks : List String) : Unit × String :=
       let net ← if net == "-" then some none else (Proto.ofHex? net).map some
       let na ← if na == "-" then some none else (Proto.ofHex? na).map some
       pure (recv ov d p (v == "1") dec net na)
+    | ["slice", d, lo, hi] => do
+      -- the hand-written Python-slice model against CPython itself: d[lo:hi], "-" = bound omitted
+      let d ← Proto.ofHex? d
+      let lo ← if lo == "-" then some none else lo.toInt?.map some
+      let hi ← if hi == "-" then some none else hi.toInt?.map some
+      pure (Proto.toHex (pySlice d lo hi))
+    | ["varlen", strict, d, off] => do
+      -- the hand-written varlenH unpacker against the live packer
+      let d ← Proto.ofHex? d
+      let off ← off.toNat?
+      pure (match unpackVarlenH (strict == "1") d off with
+        | some (k, e) => s!"{Proto.toHex k} {e}"
+        | none => "err")
     | ["pack", pfx, m, pub, body, sig] => do
       let pfx ← Proto.ofHex? pfx
       let m ← m.toNat?
@@ -113,6 +153,6 @@ def step (_ : Unit) (toks : List String) : Unit × String :=
       let S := constSigner pub sig
       pure (Proto.toHex (Gen.ezrPack S () pfx (UInt8.ofNat m) body true))
     | _ => none
-  ((), r.getD "bad-op")
+  (st, r.getD "bad-op")
 
-def main : IO Unit := Proto.run () step
+def main : IO Unit := Proto.run ({} : Node) step
